@@ -2638,6 +2638,11 @@ func (s *Server) serveConnCounted(c net.Conn, countConcurrency bool) error {
 		// If a client denies a request the handler should not be called
 		if continueReadingRequest {
 			s.Handler(ctx)
+			if ctx.Request.hasUnreadBodyStream() {
+				// The handler left part of the streamed request body unread. Those bytes are still
+				// on the wire and would be parsed as the next request, so this must be the last one.
+				connectionClose = true
+			}
 		}
 
 		timeoutResponse = ctx.timeoutResponse
